@@ -11,6 +11,7 @@ import (
 	"sort"
 	"sync"
 	"sync/atomic"
+	"syscall"
 	"time"
 
 	comm "github.com/IBM/TSS/net"
@@ -885,6 +886,17 @@ func scenarioFirstSend(seed uint64, budget time.Duration, maxRounds int) {
 				atomic.AddInt64(countOf(round), 1)
 			}
 		}(d, in)
+	}
+	// every fresh destination keeps a connection open at both ends (client and server live in this process): stay well below
+	// the descriptor limit, otherwise dials start to fail and frames are "lost" by the harness, not by the code under test
+	var rl syscall.Rlimit
+	if err := syscall.Getrlimit(syscall.RLIMIT_NOFILE, &rl); err == nil {
+		if fdRounds := (int(rl.Cur)*6/10 - 200) / (2 * D); fdRounds < maxRounds {
+			maxRounds = fdRounds
+		}
+	}
+	if maxRounds < 20 {
+		maxRounds = 20
 	}
 	t0 := time.Now()
 	r := newPRNG(seed ^ 0xf1)
